@@ -205,7 +205,21 @@ func TestVerif_C13(t *testing.T) {
 				}
 				res.event("datapath_reports_injected", 1)
 			}
+			// one session is deleted before anything is reported: a report for it is a report for an unknown session
+			var goneSess *sess
+			if len(ss) > 2 && rng.Intn(2) == 0 {
+				gi := 1 + rng.Intn(len(ss)-1)
+				g := ss[gi]
+				if dm := c01Request(p, p.deletion(900, g.up), 900); dm != nil && vDecodeReply(dm).Cause == ie.CauseRequestAccepted {
+					goneSess = g
+					ss = append(ss[:gi:gi], ss[gi+1:]...)
+					res.event("sessions_deleted_before_their_report", 1)
+				}
+			}
 			nrep := 0
+			if goneSess != nil {
+				report(goneSess, false)
+			}
 			for i := 0; i < 6+rng.Intn(30); i++ {
 				if rng.Intn(6) == 0 {
 					report(ss[0], true)
@@ -266,6 +280,10 @@ func TestVerif_C13(t *testing.T) {
 			byCP := map[uint64]int{}
 			w := map[string]interface{}{"up4": up4, "sessions": len(ss), "reports": nrep}
 			for _, q := range got {
+				if goneSess != nil && (q.SEID() == goneSess.cp || q.SEID() == goneSess.up) {
+					res.violate("C13.R2", "report-for-deleted-session", fmt.Sprintf("session %#x was deleted (Session Deletion Response: accepted) before the datapath reported its F-SEID / UE address, yet a Session Report Request was sent to its CP SEID %#x", goneSess.up, goneSess.cp), w)
+					continue
+				}
 				byCP[q.SEID()]++
 				if used[q.SequenceNumber] {
 					res.violate("C13.R4", "sequence-reused", fmt.Sprintf("Session Report Request carries sequence number %d already used by the agent on this association", q.SequenceNumber), w)
@@ -348,6 +366,65 @@ func TestVerif_C13(t *testing.T) {
 					for _, s := range again {
 						if seen2[s.cp] != 1 {
 							res.violate("C13.R1", fmt.Sprintf("no-report-after-answer cause=%d", answered[s.cp]), fmt.Sprintf("session %#x: its first Session Report Request was answered with cause %d; the session is still established and its downlink rule still asks for notification, but the next datapath report produced %d Session Report Requests (1 expected)", s.up, answered[s.cp], seen2[s.cp]), w)
+						}
+					}
+				}
+			}
+			if up4 {
+				var x *sess
+				for _, s := range ss {
+					if s.notify && byCP[s.cp] > 0 {
+						x = s
+					}
+				}
+				if x != nil {
+					if dm := c01Request(p, p.deletion(950, x.up), 950); dm != nil && vDecodeReply(dm).Cause == ie.CauseRequestAccepted {
+						mk := func(seq uint32, cp uint64, n int, ue uint32) (*sess, bool) {
+							e := c10Session(seq, cp, n)
+							if ue != 0 {
+								e.PDRs[0].UEIP, e.PDRs[1].UEIP = vIPStr(ue), vIPStr(ue)
+							}
+							e.FARs[1] = vFARSpec{ID: 2, Action: ActionBuffer | ActionNotify}
+							m := c01Request(p, p.establish(e), seq)
+							if m == nil || vDecodeReply(m).Cause != ie.CauseRequestAccepted {
+								return nil, false
+							}
+							return &sess{cp: cp, up: c01UPSEID(m), ue: vIP4(e.PDRs[1].UEIP), notify: true}, true
+						}
+						y, ok1 := mk(951, 0x7F00+uint64(k), 20000+k*16+14, x.ue)
+						z, ok2 := mk(952, 0x7F80+uint64(k), 20000+k*16+15, 0)
+						if ok1 && ok2 {
+							// the UE address of the deleted session now belongs to a new one: its first report is a first report
+							a.p4.pushDigest(y.ue)
+							a.p4.pushDigest(z.ue)
+							gotY, gotZ := false, false
+							deadline3 := time.Now().Add(10 * time.Second)
+							for time.Now().Before(deadline3) && !gotZ {
+								raw, ok := p.recvRaw(200 * time.Millisecond)
+								if !ok {
+									continue
+								}
+								m, err := message.Parse(raw)
+								if err != nil {
+									continue
+								}
+								switch q := m.(type) {
+								case *message.HeartbeatRequest:
+									p.send(vMarshal(message.NewHeartbeatResponse(q.SequenceNumber, ie.NewRecoveryTimeStamp(p.startTS))))
+								case *message.SessionReportRequest:
+									if q.SEID() == y.cp {
+										gotY = true
+									}
+									if q.SEID() == z.cp {
+										gotZ = true
+									}
+									p.send(p.reportResponse(q.SequenceNumber, map[bool]uint64{true: y.up, false: z.up}[q.SEID() == y.cp], ie.CauseRequestAccepted))
+								}
+							}
+							res.event("ue_addresses_taken_over_by_a_new_session", 1)
+							if gotZ && !gotY {
+								res.violate("C13.R1", "first-report-of-new-session-suppressed", fmt.Sprintf("session %#x is new (its UE address %s belonged to a session that was reported and deleted a moment ago); its first downlink-data report produced no Session Report Request while a later report of another new session did", y.up, vIPStr(y.ue)), w)
+							}
 						}
 					}
 				}
